@@ -164,6 +164,23 @@ pub fn run_case(case: &Value, out: &mut Out) {
     let mut ids: Vec<u32> = reader.tracks().keys().copied().collect();
     ids.sort();
     out.ev(json!({"e":"open","res":"ok","tracks":ids,"msg":""}));
+    // layouts that only reorder / re-head boxes: the parsed structures equal those of the reference file
+    if case["ref_file"].is_array() {
+        let rb = from_bytes(&case["ref_file"]);
+        let canon = |r: &Mp4Reader<Sparse>| serde_json::to_string(&json!([crate::dbg::parse(&format!("{:?}", r.ftyp)), crate::dbg::parse(&format!("{:?}", r.moov))])).unwrap_or_default();
+        let same = match open_reader(&rb, None) {
+            Ok(r0) => {
+                let (a, b) = (canon(&r0), canon(&reader));
+                if a != b && std::env::var("MP4V_DEBUG").is_ok() {
+                    let i = a.bytes().zip(b.bytes()).position(|(x, y)| x != y).unwrap_or(0);
+                    eprintln!("STRUCT-DIFF at {}: ref ...{}... new ...{}...", i, &a[i.saturating_sub(120)..(i + 80).min(a.len())], &b[i.saturating_sub(120)..(i + 80).min(b.len())]);
+                }
+                a == b
+            }
+            Err(_) => false,
+        };
+        out.ev(json!({"e":"same","what":"a layout that only reorders boxes parses to other structures than the reference layout","same":same,"detail":id}));
+    }
     if case["meta"].as_bool().unwrap_or(false) {
         out.ev(meta_event(&reader));
     }
